@@ -9,7 +9,7 @@ from harness.common import Ctx, Machinery, tlc_design
 from harness.tracecheck import validate
 
 
-def design(ctx: Ctx, cfg: str | None = None, timeout=3000, wide=False, restart=False):
+def design(ctx: Ctx, cfg: str | None = None, timeout=14400, wide=False, restart=False):
     """Design run of Driver.  quick: MCDriver_quick.cfg.  thorough: the wide configuration lattice (124 M states,
     ~15 min) for the checks whose point it is (wide=True), the restart-chain lattice (restart=True), else quick."""
     if cfg is None:
